@@ -42,6 +42,7 @@ W_LEN = ["abcdefg", "abcdefgh", "abcdefghijklmno", "abcdefghijklmnop", "abcdefgh
          "http://example.org/a/very/long/token/of/forty-eight"]
 MORPH_LONG = ["Nom.Sg.Masc.Def.", "3.Sg.Pres.Ind.Akt.Refl", "abcdefghijklmnopqrstuvwx"]
 P_PUNCT = ["$,", "$.", ":", "PUNCT"]
+P_PAREN = ["$(", "$(", "$["]
 
 
 def tokset(node):
@@ -154,10 +155,12 @@ def swarm_knobs(rng, tier="quick", allow=("ascii", "latin1", "wide", "xml", "len
 
 def gen_word(rng, k):
     r = rng.random()
+    # pos_paren: the NeGra/TIGER tags of brackets, quotes and dashes contain a parenthesis
+    ppos = P_PUNCT + (P_PAREN if k.get("pos_paren") else [])
     if r < k.get("punct", 0):
-        return rng.choice(W_PUNCT), rng.choice(P_PUNCT)
+        return rng.choice(W_PUNCT), rng.choice(ppos)
     if r < k.get("punct", 0) + k.get("pair", 0):
-        return rng.choice(W_PAIR), rng.choice(P_PUNCT)
+        return rng.choice(W_PAIR), rng.choice(ppos)
     cls = rng.choice(k["words"])
     pool = {"ascii": W_ASCII, "latin1": W_LATIN1, "wide": W_WIDE, "xml": W_XML,
             "paren": W_PAREN, "len": W_LEN, "hash": W_HASH, "uspace": W_USPACE, "parentok": W_PARENTOK}[cls]
